@@ -530,16 +530,16 @@ PROPS["C04"] = {
                       "(C04_kill_<mvt>_is_span / C04_copy_<mvt>_is_span: chars, words, begin/end of line, whole line, line up/down, buffer ranges, "
                       "char searches) assembled in C04_kill_is_span_partial / C04_copy_is_span_partial (every Movement but ViFirstPrint; hypotheses "
                       "S.Stable for T-searches and S.NlAlone = the line break is its own cluster for the whole-line kill of an empty line). "
-                      "Vertical motion: lands in the n-th line above/below or the first/last (C04_moveToLineUp_dest / C04_moveToLineDown_dest, "
-                      "also the exact cluster index), keeps the display column when the destination line has one-column clusters "
-                      "(C04_moveToLine*_column_partial); with wide or zero-width clusters it does not (C04_vertical_column_counterexample, "
-                      "known finding F-C04-vertical-column, now also judged by the oracle checkVerticalCol). indent, edit_word, transpose_chars are "
-                      "checked by the oracle on the implementation only. Known findings: ViFirstPrint ranges, vi `e` with count > 1, vertical column.",
+                      "Vertical motion (after the D36 repair): lands in the n-th line above/below or the first/last, exactly on the declarative "
+                      "verticalTarget = first cluster boundary of that line at or right of the cursor's display column, else the line end "
+                      "(C04_moveToLineUp_dest / C04_moveToLineDown_dest); the display-column oracle checkVerticalCol is satisfied for every "
+                      "lawful segmenter and every width function, wide and zero-width clusters included (C04_moveToLineUp_column, "
+                      "C04_moveToLineDown_column, C04_vertical_column; a wide cluster straddling the column is stepped over). indent, edit_word, "
+                      "transpose_chars are checked by the oracle on the implementation only. Known findings: ViFirstPrint ranges, vi `e` with count > 1.",
         "unproved": ["C04_word_target_beforeEnd_statement (refuted: C04_word_target_beforeEnd_counterexample, pinned by test::vi_cmd::e)",
                      "C04_kill_is_span_statement (refuted for ViFirstPrint: C04_kill_viFirstPrint_counterexample; every other movement: C04_kill_is_span_partial)",
                      "C04_copy_is_span_statement (refuted for ViFirstPrint: C04_copy_viFirstPrint_counterexample; every other movement: C04_copy_is_span_partial)",
-                     "C04_char_search_statement (refuted for an unstable lawful segmenter: C04_char_search_counterexample; proved for stable ones)",
-                     "C04_vertical_column_statement (refuted: C04_vertical_column_counterexample, finding F-C04-vertical-column)"],
+                     "C04_char_search_statement (refuted for an unstable lawful segmenter: C04_char_search_counterexample; proved for stable ones)"],
         "assumptions": [],
     }
 
